@@ -589,6 +589,11 @@ class GraphReplayer:
                     k = args[0]
                     self.sps[k - 1].rollback()
                     del self.sps[k:]
+                elif action == 'Abort':
+                    self.tm.abort()
+                    self.sps = []
+                elif action == 'ImportCopy':
+                    self.import_copy(*args)
                 elif action == 'TouchElsewhere':
                     with hidden(GONE_MOD):
                         self.touch_elsewhere(args[0])
@@ -633,6 +638,22 @@ class GraphReplayer:
         finally:
             signal.setitimer(signal.ITIMER_REAL, 0)
             signal.signal(signal.SIGALRM, old)
+
+    def import_copy(self, c, src):
+        """copy = A.importFile(A.exportFile(oid of src)); then the copy is renamed (a change like any other)"""
+        f = self.A.exportFile(self.nodes[src]._p_oid, io.BytesIO())
+        f.seek(0)
+        ob = self.A.importFile(f)
+        if ob is None or ob is self.nodes[src]:
+            raise Mismatch('import', 'no-copy', 'importFile did not return a new object')
+        ob.name = node_name(c)
+        if has_newargs(self.kinds[c]):
+            ob.tag = node_name(c)
+        for key in [k for k in ob.__dict__ if k.startswith('e_%d_' % src)]:      # the copy's self-references
+            v = ob.__dict__[key]
+            delattr(ob, key)
+            setattr(ob, 'e_%d_' % c + key.split('_', 2)[2], v)
+        self.nodes[c] = ob
 
     def touch_elsewhere(self, n):
         """the loading connection B (classes of GONE_MOD missing) changes node n and commits"""
@@ -690,8 +711,16 @@ class GraphReplayer:
             if self.A.get(ob._p_oid) is not ob:
                 raise Mismatch('identity', 'connection-a', 'connection A answers get(oid of node %d) with another object' % n)
         # what connection A holds (re-read from the database when the cache was minimised)
+        from ZODB.POSException import POSKeyError
         for n in sorted(self.kinds):
             ob = self.nodes[n]
+            if n in state.get('stale', ()):
+                try:
+                    ob._p_activate()
+                except POSKeyError:
+                    continue
+                raise Mismatch('stale', 'loads', 'node %d: the specification of the code as it is says the object owns an oid '
+                               'without a record; it loads' % n)
             was_changed = ob._p_changed
             ob._p_activate()
             name, tag, edges, problems = decode_state(
@@ -957,9 +986,12 @@ class GraphReplayer:
                     ob = B.get(oid)
                     ob._p_activate()       # the connection may still hold a ghost of a packed-away object
                 except POSKeyError:
+                    if want['p'] and want['loadable'] == 'dangling':
+                        identify(ob, 'by get(oid)')      # a class-less reference in its state leads to no record
+                        continue
                     ob = None
                 except (AttributeError, TypeError) as ex:
-                    if want['p'] and not want['loadable']:
+                    if want['p'] and want['loadable'] == 'container':
                         # BrokenContainerUnloadable: the specification of the code as it is says so
                         self.counts['unloadable'] += 1
                         identify(ob, 'by get(oid)')
@@ -968,7 +1000,7 @@ class GraphReplayer:
                                              'container is missing: %s: %s' % (n, self.kinds[n], type(ex).__name__, str(ex)[:80]))
                         continue
                     raise
-                if ob is not None and not want['loadable']:
+                if ob is not None and want['loadable'] != 'ok':
                     raise Mismatch('load', 'loadable', 'node %d loads although the specification of the code as it is '
                                    '(BrokenContainerUnloadable) says it cannot' % n)
                 if (ob is not None) != want['p']:
@@ -990,10 +1022,13 @@ class GraphReplayer:
                     else:
                         kind, target = 'strong', ref
                     d = identify(target, 'from node %d through a %s reference in %s' % (n, kind, holder))
-                    if d < 100 and not view[d]['loadable']:
+                    if d < 100 and view[d]['p'] and view[d]['loadable'] != 'ok':
                         return (d, kind, holder, True)
+                    try:
+                        st = self._state_of(d, target)
+                    except POSKeyError:
+                        return (d, kind, holder, False)      # the reference leads to an oid without a record
                     via.setdefault(d, target)
-                    st = self._state_of(d, target)
                     if st.get('name') != node_name(d):
                         raise Mismatch('load', 'wrong-state', 'oid of node %d carries the state of %r' % (d, st.get('name')))
                     return (d, kind, holder, True)
@@ -1012,7 +1047,7 @@ class GraphReplayer:
             # other (get(oid)); the abort must take it back through both
             probed = []
             for d, target in sorted(via.items()):
-                if self._broken(d) or (d < 100 and not view[d]['loadable']):
+                if self._broken(d) or (d < 100 and view[d]['loadable'] != 'ok'):
                     continue                   # placeholders refuse modification; unloadable objects cannot be touched
                 conn = target._p_jar
                 target.probe = self.counts['loads']
